@@ -40,7 +40,8 @@ func (c08) Plan(tier string, seed int64) []mon.Workload {
 		n = 6000
 	}
 	return []mon.Workload{{Name: "v1", N: n}, {Name: "v2", N: n}, {Name: "subset-tables", N: n / 2},
-		{Name: "long-valid", N: int64(len(c08LongSizes) * len(c08LongShapes) * 2), Exhaustive: true}}
+		{Name: "long-valid", N: int64(len(c08LongSizes) * len(c08LongShapes) * 2), Exhaustive: true},
+		{Name: "after-valid-twin", N: int64(len(c08BadV1) * len(c08TwinWraps)), Exhaustive: true}}
 }
 
 // invalid calls per builtin: label -> source text (identifiers a, b exist as plain names)
@@ -147,7 +148,7 @@ func (c08) base(c *mon.Ctx, v2 bool) []*gt.T {
 }
 
 func (k c08) Describe(c *mon.Ctx, workload string, i int64) any {
-	if workload == "long-valid" {
+	if workload == "long-valid" || workload == "after-valid-twin" {
 		return map[string]any{"index": i}
 	}
 	return map[string]any{"base": gt.Print(gt.ParenthesizeStmts(k.base(c, workload == "v2")), nil)}
@@ -245,6 +246,54 @@ func (k c08) longValid(c *mon.Ctx, i int64) {
 	}
 }
 
+// after-valid-twin (exhaustive, v1): every invalid call of the table again,
+// but preceded - in the same scope or in an enclosing one - by a VALID call of
+// the same builtin with the same literal arguments (same pattern, same
+// format, same key): whatever a checker remembers about a call it has already
+// accepted must not vouch for a later, differently shaped one.
+var c08Valid = map[string]string{
+	"add_key": "add_key(a, 1)", "get_key": "get_key(a)", "set_tag": "set_tag(a, \"x\")", "drop_key": "drop_key(a)", "rename": "rename(a, b)", "cast": "cast(a, \"int\")",
+	"set_measurement": "set_measurement(a, true)", "len": "len(a)", "load_json": "load_json(a)", "strfmt": "strfmt(a, \"%d\", 1)", "printf": "printf(\"%d\", 1)",
+	"trim": "trim(a, \"x\")", "uppercase": "uppercase(a)", "replace": "replace(a, \"x\", \"y\")", "url_decode": "url_decode(a)", "grok": "grok(a, \"%{WORD:w}\")",
+	"add_pattern": "add_pattern(\"x\", \"y\")", "xml": "xml(a, \"/x\", b)", "datetime": "datetime(a, \"s\", \"RFC3339\")", "default_time": "default_time(a)", "sql_cover": "sql_cover(a)",
+	"use": "a = 1",
+}
+var c08TwinWraps = []string{"VALID\nBAD\n", "VALID\nif a {\n  BAD\n}\n", "VALID\nfor e in [1] {\n  if e {\n    x = [BAD]\n  }\n}\n", "if a {\n  VALID\n} elif BAD {\n}\n", "VALID\nVALID\nx = 1 + BAD\n"}
+
+func (k c08) afterTwin(c *mon.Ctx, i int64) {
+	wrap := c08TwinWraps[int(i)%len(c08TwinWraps)]
+	bad := c08BadV1[int(i)/len(c08TwinWraps)]
+	name := strings.SplitN(bad[0], "/", 2)[0]
+	valid, ok := c08Valid[name]
+	if !ok {
+		panic("c08: no valid twin for " + name)
+	}
+	src := strings.ReplaceAll(strings.ReplaceAll(wrap, "VALID", valid), "BAD", bad[1])
+	if bad[0] == "use/missing-script" && strings.Contains(wrap, "[BAD]") {
+		return
+	}
+	err, pan := loadV1Err(src)
+	c.Eval(1)
+	c.Nontrivial(src)
+	cs := map[string]any{"source": src, "offender": bad[0]}
+	at := strings.Index(src, bad[1])
+	switch {
+	case pan != nil:
+		c.Violate("check-panic", fmt.Sprintf("loading panicked: %v\n%s", pan, src), cs)
+	case err == nil:
+		c.Violate("offender-accepted:v1:after-valid-twin", fmt.Sprintf("%s was accepted after a valid call of the same builtin\n%s", bad[0], src), cs)
+	default:
+		pe, ok := err.(*errchain.PlError)
+		if !ok || len(pe.PosChain) == 0 {
+			c.Violate("load-error-without-position", fmt.Sprintf("%T %v\n%s", err, err, src), cs)
+			return
+		}
+		if p := pe.PosChain[0]; p.Pos < at || p.Pos >= at+len(bad[1]) {
+			c.Violate("load-error-points-elsewhere:v1", fmt.Sprintf("offender %s occupies bytes [%d,%d) but the error points at %s:%d:%d (offset %d): %s\n%s", bad[0], at, at+len(bad[1]), p.File, p.Ln, p.Col, p.Pos, pe.Err, src), cs)
+		}
+	}
+}
+
 type c08Loader func(src string) (err error, pan any)
 
 func loadV1Err(src string) (err error, pan any) {
@@ -270,6 +319,10 @@ func (k c08) Run(c *mon.Ctx, workload string, i int64) {
 	}
 	if workload == "long-valid" {
 		k.longValid(c, i)
+		return
+	}
+	if workload == "after-valid-twin" {
+		k.afterTwin(c, i)
 		return
 	}
 	v2 := workload == "v2"
